@@ -13,7 +13,7 @@ import (
 )
 
 func init() {
-	register("C14", checkC14, "Must-hold lock-set dataflow per function on the client's own sync.RWMutex field (Lock -> exclusive, RLock -> shared, Unlock/RUnlock -> none, deferred unlocks keep the lock to function exit), with requires-lock summaries for unexported methods propagated to all call sites. R14.1 field partition: a field is init-only if every store to it goes through a pointer that is fresh in the storing function (allocated there, or returned by a function that returns its own fresh allocation) or through the parameter of a function of the constructor's option type; otherwise it is guarded. R14.2 every read of a guarded field holds the mutex (shared or exclusive), every write of one and every Read/Write/Close/Set*Deadline/Flush on the transport value holds it exclusively, and lock-relying unexported methods are only called with it held. R14.3 in Do the lock taken at entry is released only by the deferred unlock, and the transport write, all reads and the parse lie inside that critical section (no unlock anywhere in the functions Do reaches). R14.4 Close tests the transport for nil under the lock before using it. By the semantics of sync.RWMutex this excludes interleaved frames, cross-delivered replies and data races on the client's own state for every schedule. Not decided: fairness; the transport's own thread safety. R14.5 do() returns a fresh copy of a call-local receive buffer (replies of different calls never share memory). R14.6 no return of a function that takes the mutex leaves it held without a deferred unlock registered on all paths (may-analysis). R14.7 no function stores to a field of an existing ClientError: the package-level sentinel errors Do returns are shared by all goroutines. R14.8 = shared-state rule from every exported method of both clients (package-level state is not protected by the client's mutex). R14.9 = C07 R7.1 restricted to expectations that are too short (bytes left unread shift the stream for the next caller); deviations pinned by the suite are known findings, too-long expectations observations.")
+	register("C14", checkC14, "Must-hold lock-set dataflow per function on the client's own sync.RWMutex field (Lock -> exclusive, RLock -> shared, Unlock/RUnlock -> none, deferred unlocks keep the lock to function exit), with requires-lock summaries for unexported methods propagated to all call sites. R14.1 field partition: a field is init-only if every store to it goes through a pointer that is fresh in the storing function (allocated there, or returned by a function that returns its own fresh allocation) or through the parameter of a function of the constructor's option type; otherwise it is guarded. R14.2 every read of a guarded field holds the mutex (shared or exclusive), every write of one and every Read/Write/Close/Set*Deadline/Flush on the transport value holds it exclusively, and lock-relying unexported methods are only called with it held. R14.3 in Do the lock taken at entry is released only by the deferred unlock, and the transport write, all reads and the parse lie inside that critical section (no unlock anywhere in the functions Do reaches). R14.4 Close tests the transport for nil under the lock before using it. By the semantics of sync.RWMutex this excludes interleaved frames, cross-delivered replies and data races on the client's own state for every schedule. Not decided: fairness; the transport's own thread safety. R14.5 do() returns a fresh copy of a call-local receive buffer (replies of different calls never share memory). R14.6 no return of a function that takes the mutex leaves it held without a deferred unlock registered on all paths (may-analysis). R14.7 no function stores to a field of an existing ClientError: the package-level sentinel errors Do returns are shared by all goroutines. R14.8 = shared-state rule from every exported method of both clients (package-level state is not protected by the client's mutex). R14.9 = C07 R7.1 restricted to expectations that are too short (bytes left unread shift the stream for the next caller); deviations pinned by the suite are known findings, too-long expectations observations. R14.10 = C08 R8.1 timer clause: the total-timeout channel a call selects on is created by time.After inside that call, before its loop (a timer kept in the client and re-armed per request can deliver one caller's stale tick to the next caller).")
 }
 
 type lockState int
@@ -489,6 +489,21 @@ func checkC14(c *Ctx, r *Report) {
 		}
 		r.instance("R14.9", n)
 		r.floor("R14.9", 20)
+	}
+	// R14.10 = C08 R8.1 timer clause: the total-timeout channel a call waits on is made by this call
+	// (one time.After before its loop). A timer kept in the client and re-armed per request carries a
+	// stale tick from one caller's exchange into the next caller's, which then gives up on a reply
+	// that is on its way and leaves it in the stream for the caller after it.
+	{
+		for _, spec := range []struct {
+			name   string
+			serial bool
+		}{{"Client", false}, {"SerialClient", true}} {
+			tmp := newReport(r.Prop, r.Tier)
+			c08Client(c, tmp, analyseClient(c, spec.name, spec.serial), false)
+			r.instance("R14.10", copyItems(tmp, r, "R8.1", "R14.10", "time.After", "timer"))
+		}
+		r.floor("R14.10", 2)
 	}
 	// R14.8: the client's mutex protects the client's own fields only; package-level state written
 	// from any of its methods would be shared by all goroutines and all clients without that lock
